@@ -54,6 +54,9 @@ Definition keymaster_cert (c : tlsinfo) : Prop :=
 Definition ip_cert_ok (c : tlsinfo) : Prop :=
   c_ip_error c = false /\ c_ip_valid c = true /\ c_automation c = true /\ c_revoked c = false.
 
+(* a certificate whose common name is the empty string names nobody: it is no credential *)
+Definition names_somebody (st : server) (c : tlsinfo) : Prop := s_name st (c_cn c) <> [].
+
 (* some credential among those the request carries (client certificate, session cookie, Basic
    header: any subset can be present) establishes (u, level) *)
 Inductive proves (st : server) (now : Z) (q : certreq) (u level : N) : Prop :=
@@ -61,19 +64,19 @@ Inductive proves (st : server) (now : Z) (q : certreq) (u level : N) : Prop :=
                 proves st now q u level
 | P_password b : q_basic q = Some b -> b_ok b = true -> b_err b = false -> u = b_user b -> level = bPassword ->
                  proves st now q u level
-| P_km_cert c : q_tls q = Some c -> keymaster_cert c -> u = c_cn c -> level = bKMX509 ->
+| P_km_cert c : q_tls q = Some c -> names_somebody st c -> keymaster_cert c -> u = c_cn c -> level = bKMX509 ->
                 proves st now q u level
-| P_ip_cert c : q_tls q = Some c -> ip_cert_ok c -> u = c_cn c -> level = bIPCert ->
+| P_ip_cert c : q_tls q = Some c -> names_somebody st c -> ip_cert_ok c -> u = c_cn c -> level = bIPCert ->
                 proves st now q u level
-| P_both c : q_tls q = Some c -> keymaster_cert c -> ip_cert_ok c -> u = c_cn c ->
+| P_both c : q_tls q = Some c -> names_somebody st c -> keymaster_cert c -> ip_cert_ok c -> u = c_cn c ->
              level = N.lor bKMX509 bIPCert -> proves st now q u level.
 
 (* what the presented client certificate alone establishes *)
-Inductive cert_proves (q : certreq) (u level : N) : Prop :=
-| CP_km c : q_tls q = Some c -> keymaster_cert c -> u = c_cn c -> level = bKMX509 -> cert_proves q u level
-| CP_ip c : q_tls q = Some c -> ip_cert_ok c -> u = c_cn c -> level = bIPCert -> cert_proves q u level
-| CP_both c : q_tls q = Some c -> keymaster_cert c -> ip_cert_ok c -> u = c_cn c ->
-              level = N.lor bKMX509 bIPCert -> cert_proves q u level.
+Inductive cert_proves (st : server) (q : certreq) (u level : N) : Prop :=
+| CP_km c : q_tls q = Some c -> names_somebody st c -> keymaster_cert c -> u = c_cn c -> level = bKMX509 -> cert_proves st q u level
+| CP_ip c : q_tls q = Some c -> names_somebody st c -> ip_cert_ok c -> u = c_cn c -> level = bIPCert -> cert_proves st q u level
+| CP_both c : q_tls q = Some c -> names_somebody st c -> keymaster_cert c -> ip_cert_ok c -> u = c_cn c ->
+              level = N.lor bKMX509 bIPCert -> cert_proves st q u level.
 
 (* ---- SSH extensions: what the certificate must carry under key k.  The last configured pair
    whose expanded key is k decides; otherwise the five standard names map to the empty string;
